@@ -276,6 +276,7 @@ func VerifH_C07_Filter() {
 		vals[i] = vrt.Str("email")
 		fns[i] = vrt.Str("fn")
 	}
+	twoEmails := vrt.Choose("two-emails", 2) == 1
 	mkQuery := func() *AddressBookQuery {
 		return &AddressBookQuery{
 			DataRequest: AddressDataRequest{Props: append([]string(nil), reqNames...), AllProp: allProp},
@@ -290,6 +291,10 @@ func VerifH_C07_Filter() {
 			card := vcard.Card{vcard.FieldVersion: []*vcard.Field{{Value: "3.0"}}, vcard.FieldFormattedName: []*vcard.Field{{Value: fns[i]}}}
 			if has[i] {
 				card[vcard.FieldEmail] = []*vcard.Field{{Value: vals[i]}}
+				if twoEmails {
+					// a property may occur more than once: projection keeps all instances
+					card[vcard.FieldEmail] = append(card[vcard.FieldEmail], &vcard.Field{Value: "second@example.org"})
+				}
 			}
 			objs[i] = AddressObject{Path: "/o" + string(rune('0'+i)), ETag: "e" + string(rune('0'+i)), Card: card}
 		}
@@ -351,7 +356,15 @@ func VerifH_C07_Filter() {
 			}
 			vrt.Assert(requested, "Filter: projection contains a property that was not requested")
 			sf, ok := src[name]
-			vrt.Assert(ok && len(sf) == len(f) && sf[0].Value == f[0].Value, "Filter: projected property differs from the source")
+			same := ok && len(sf) == len(f)
+			if same {
+				for x := range sf {
+					if sf[x].Value != f[x].Value {
+						same = false
+					}
+				}
+			}
+			vrt.Assert(same, "Filter: projected property differs from the source (every instance is kept)")
 		}
 		_, hasVersion := got.Card[vcard.FieldVersion]
 		vrt.Assert(hasVersion, "Filter: projection keeps VERSION")
